@@ -292,6 +292,10 @@ def analyse(ctx, col, case, info, dev, beh, statements, client, state):
     # an error line sent while the caller was idle after statement k must be raised by write(k+1)
     async_after = {int(k) for k in info.get("async_error_after", {})}
     all_replies = sorted([t for t, k, _ in events if k in ("ack", "tx-extra")])
+    # ... unless write(k) had not returned yet when the device sent the line: then write(k) itself may
+    # raise it (the statement only says that the error is raised to the caller)
+    t_async = {payload[0]: t for t, k, payload in events if k == "async-error"}
+    raised_early = set()
     for i, t_call, t_ret, out, err, xread, tread in client:
         col.count("writes_checked")
         ack = acks.get(i)
@@ -299,7 +303,7 @@ def analyse(ctx, col, case, info, dev, beh, statements, client, state):
             if out == "ok" and ack is None:
                 return fail("write-returned-normally-without-any-acknowledgement-after-connection-loss", index=i)
             continue
-        is_err = i in info["errors_at"] or (i - 1) in async_after
+        is_err = i in info["errors_at"] or ((i - 1) in async_after and (i - 1) not in raised_early)
         if (i - 1) in async_after:
             col.count("async_errors_expected")
         if is_err:
@@ -314,7 +318,10 @@ def analyse(ctx, col, case, info, dev, beh, statements, client, state):
             if is_err:
                 late_errors.append(i)
         else:  # DeviceError
-            if not is_err:
+            if not is_err and i in async_after and t_async.get(i) is not None and t_async[i] <= t_ret:
+                raised_early.add(i)
+                col.count("async_errors_raised_by_the_write_still_returning")
+            elif not is_err:
                 late_errors.append(i)
             else:
                 col.count("errors_raised_correctly")
